@@ -800,9 +800,19 @@ func (c *ExecCtx) dryRun(st *State, body func(*State) []*State) *recorder {
 	savedLoops := c.loops
 	savedReturns := c.returns
 	savedOrd, savedLit := c.loopOrd, c.litOrd
+	// labelled break/continue out of the dry-run body must not leak states
+	// into the enclosing loops
+	type lcLen struct{ b, c int }
+	lens := make([]lcLen, len(c.loops))
+	for i, l := range c.loops {
+		lens[i] = lcLen{len(l.breaks), len(l.continues)}
+	}
 	s := st.fork()
 	body(s)
 	c.loops = savedLoops
+	for i, l := range c.loops {
+		l.breaks, l.continues = l.breaks[:lens[i].b], l.continues[:lens[i].c]
+	}
 	c.returns = savedReturns
 	c.loopOrd, c.litOrd = savedOrd, savedLit
 	u.quiet--
@@ -997,6 +1007,10 @@ func (c *ExecCtx) runLoop(st *State, node ast.Node, label string, ls *LoopSpec, 
 
 	u := c.u
 	pos := node.Pos()
+	if fs, ok := node.(*ast.ForStmt); ok && fs.Init != nil {
+		// variables declared by the init statement are in scope from the body on
+		pos = fs.Body.Lbrace
+	}
 	c.loopBinds = append(c.loopBinds, binds)
 	defer func() { c.loopBinds = c.loopBinds[:len(c.loopBinds)-1] }()
 	// 1. what does one iteration modify?
